@@ -1,0 +1,27 @@
+//go:build verif
+
+package align
+
+// Machine-checked contracts for /verif/govc (contract-based deductive
+// verification). Comments only; this file compiles to nothing and is only
+// read with the build tag "verif".
+
+//@ func SubstitutionMatrix.Get
+//@   props C08 C09 C20
+//@   panics !has(m, key2(a, b))
+//@   ensures result == m[key2(a, b)]
+
+// Symmetrical (C20): a new matrix containing every original pair and its mirror
+// image with the original score and nothing else; panics exactly when two
+// mirrored pairs (a != b) carry different scores; the receiver is only read.
+//@ func SubstitutionMatrix.Symmetrical
+//@   props C20
+//@   fresh-result
+//@   let conflict := exists a int, b int :: a != b && has(m, key2(a, b)) && has(m, key2(b, a)) && m[key2(a, b)] != m[key2(b, a)]
+//@   panics conflict
+//@   ensures forall a int, b int :: has(result, key2(a, b)) <==> (has(m, key2(a, b)) || has(m, key2(b, a)))
+//@   ensures forall a int, b int :: has(m, key2(a, b)) ==> result[key2(a, b)] == m[key2(a, b)] && result[key2(b, a)] == m[key2(a, b)]
+//@   loop 1
+//@     invariant forall a int, b int :: has(result, key2(a, b)) <==> (seen(key2(a, b)) || seen(key2(b, a)))
+//@     invariant forall a int, b int :: seen(key2(a, b)) ==> result[key2(a, b)] == m[key2(a, b)] && result[key2(b, a)] == m[key2(a, b)]
+//@     invariant forall a int, b int :: seen(key2(a, b)) && a != b && has(m, key2(b, a)) ==> m[key2(a, b)] == m[key2(b, a)]
